@@ -1,4 +1,5 @@
 import SqiProofs.CurveIsom
+import SqiProofs.LadderGen
 import SqiProofs.BasisAlg
 
 /-! # C08 — x-only Montgomery curve arithmetic implements the elliptic-curve group law
@@ -467,6 +468,47 @@ theorem T00_odd (a : F) (n : Nat) (hn : n % 2 = 1) (X : F) :
 theorem DBL_order2 {a : F} (AC : EcCurve F) (hA : AC.A = a) (x : F) (h : (mont a).Nonsingular x 0)
     (J : JacPoint F) (hJ : IsJac (Affine.Point.some x 0 h) J) : (DBL J AC).z = 0 ∧ (DBL J AC).x ≠ 0 :=
   DBL_order2_noncanonical AC hA x h J hJ
+
+/-! ## the loops themselves are generated from ec.c (tie T): the theorems transfer to `SqiGen.Ladder`
+
+`SqiGen.xMUL`, `SqiGen.xMULv2`, `SqiGen.ec_ladder3pt`, `SqiGen.xDBLMUL` are emitted by `tools/translate/ladders.py` from the
+C text on every run (loops as folds of generated bodies, digit arrays as `Nat`) and proved equal to the hand models
+(`SqiProofs/LadderGen.lean`), so an edit of a loop bound, swap condition or recoding step breaks a proof obligation. -/
+
+theorem xMUL_generated_correct {a : F} (h2 : (2 : F) ≠ 0) (BITS k : Nat) (curve : EcCurve F) (hA : curve.A = a * curve.C)
+    (hC : curve.C ≠ 0) (Pt : (mont a).Point) (P : EcPoint F) (hP : IsX Pt P.x P.z) (hx : P.x ≠ 0) (hz : P.z ≠ 0) :
+    IsX ((k % 2 ^ BITS) • Pt) (SqiGen.xMUL BITS P k curve).x (SqiGen.xMUL BITS P k curve).z := by
+  rw [SqiProofs.LadderGen.xMUL_eq]
+  exact xMUL_correct h2 BITS k curve hA hC Pt P hP hx hz
+
+theorem xMULv2_generated_correct {a : F} (h2 : (2 : F) ≠ 0) (kbits k : Nat) (A24 P : EcPoint F)
+    (hA : IsA24 a A24.x A24.z) (Pt : (mont a).Point) (hP : IsX Pt P.x P.z) (hx : P.x ≠ 0) (hz : P.z ≠ 0) :
+    IsX ((k % 2 ^ kbits) • Pt) (SqiGen.xMULv2 P k kbits A24).x (SqiGen.xMULv2 P k kbits A24).z := by
+  rw [SqiProofs.LadderGen.xMULv2_eq]
+  exact xMULv2_correct h2 kbits k A24 P hA Pt hP hx hz
+
+theorem ec_ladder3pt_generated_correct {a : F} (h2 : (2 : F) ≠ 0) (NWORDS_FIELD m : Nat) (curve : EcCurve F)
+    (hA : 4 * curve.A24.x = a + 2) (Pt Qt : (mont a).Point) (P Q PQ : EcPoint F)
+    (hP : IsX Pt P.x P.z) (hQ : IsX Qt Q.x Q.z) (hD : IsX (Pt - Qt) PQ.x PQ.z)
+    (hg : L3Good (bitsLSB (64 * NWORDS_FIELD) m) Qt Pt) :
+    IsX (Pt + (m % 2 ^ (64 * NWORDS_FIELD)) • Qt) (SqiGen.ec_ladder3pt NWORDS_FIELD m P Q PQ curve).x
+      (SqiGen.ec_ladder3pt NWORDS_FIELD m P Q PQ curve).z := by
+  rw [SqiProofs.LadderGen.ec_ladder3pt_eq]
+  exact ec_ladder3pt_correct h2 (64 * NWORDS_FIELD) m curve hA Pt Qt P Q PQ hP hQ hD hg
+
+/-- `xDBLMUL` as generated (`NWORDS_ORDER` words of 64 bits, `BITS = 64·NWORDS_ORDER`, scalars given as `NWORDS_ORDER`-word
+numbers): `x([k]P + [l]Q)` for `0 < k, l < 2^BITS`; the recoding loop (bound `i < BITS`, the `i == BITS-1` case, the
+swaps, `mp_sub`, `mp_shiftr`) is part of the generated text. -/
+theorem xDBLMUL_generated_correct {a : F} (h2 : (2 : F) ≠ 0) (NW BITS : Nat) (hW : 64 * NW = BITS) (hn : 0 < BITS)
+    (k l : Nat) (hk0 : 0 < k) (hk : k < 2 ^ BITS) (hl0 : 0 < l) (hl : l < 2 ^ BITS)
+    (curve : EcCurve F) (hA : curve.A = a * curve.C) (hC : curve.C ≠ 0)
+    (hflag : curve.is_A24_computed_and_normalized ≠ 0 → 4 * curve.A24.x = a + 2)
+    (Pt Qt : (mont a).Point) (P Q PQ : EcPoint F)
+    (hP : IsX Pt P.x P.z) (hQ : IsX Qt Q.x Q.z) (hD : IsX (Pt - Qt) PQ.x PQ.z)
+    (nP : XNonDeg Pt) (nQ : XNonDeg Qt) (nS : XNonDeg (Pt + Qt)) (nD : XNonDeg (Pt - Qt)) :
+    IsX (k • Pt + l • Qt) (SqiGen.xDBLMUL NW BITS P k Q l PQ curve).x (SqiGen.xDBLMUL NW BITS P k Q l PQ curve).z := by
+  rw [SqiProofs.LadderGen.xDBLMUL_eq NW BITS hW hn k l hk hl]
+  exact xDBLMUL_correct h2 BITS hn k l hk0 hk hl0 hl curve hA hC hflag Pt Qt P Q PQ hP hQ hD nP nQ nS nD
 
 /-! ## non-vacuity: a concrete curve and point satisfying the hypotheses (over ℚ) -/
 
